@@ -58,6 +58,9 @@ def eval_repr(x):
     ns = {'Message': mido.Message, 'MetaMessage': mido.MetaMessage,
           'UnknownMetaMessage': mido.UnknownMetaMessage, 'MidiTrack': mido.MidiTrack,
           'MidiFile': mido.MidiFile}
+    import mido.frozen as fz
+    for name in ('FrozenMessage', 'FrozenMetaMessage', 'FrozenUnknownMetaMessage'):
+        ns[name] = getattr(fz, name)
     return eval(repr(x), ns)
 
 
@@ -134,6 +137,24 @@ def check_roundtrips(m):
     ps = mido.parse_string(mido.format_as_string(m))
     if not (ps == m):
         return 'roundtrip/format_as_string/' + t, repr(ps)
+    # the immutable twin is a valid message too: same representations, also after it was
+    # hashed / used as a dictionary key
+    from mido.frozen import freeze_message
+    try:
+        fm = freeze_message(m)
+        for stage in ('fresh', 'hashed'):
+            if str(fm) != str(m) or fm.dict() != m.dict():
+                return ('roundtrip/frozen-%s/text/%s' % (stage, t),
+                        'frozen message renders as %r / %r, the message as %r / %r' % (str(fm), fm.dict(), str(m), m.dict()))
+            if not (mido.Message.from_str(str(fm)) == fm) or not (mido.Message.from_dict(fm.dict()) == fm):
+                return 'roundtrip/frozen-%s/%s' % (stage, t), 'from_str / from_dict of a frozen message differ from it'
+            fb = eval_repr(fm)
+            if not (fb == fm) or type(fb) is not type(fm):
+                return 'roundtrip/frozen-%s/repr/%s' % (stage, t), 'eval(%r) = %r' % (repr(fm), fb)
+            {fm: 1}[fm]
+            hash(fm)
+    except Exception as e:
+        return 'roundtrip/frozen-raises/' + t, 'frozen twin of %r: %r' % (m, e)
     return None
 
 
@@ -412,3 +433,6 @@ CHECK_DEADLOCK FALSE
         'MidiFile defines no __eq__: files are compared structurally (class, type, ticks_per_beat, tracks)',
         'duplicated attributes in a line are not generated (their status is left open); times are finite',
     ]
+    # re-entrancy: two threads inside these functions at once, a switch possible before every statement
+    from .. import conc
+    conc.run_scenarios(ctx, 'C14', 2 if ctx.tier == 'thorough' else 1)
